@@ -403,13 +403,14 @@ impl FixedPoint {
     }
 }
 
-impl From<Integer> for FixedPoint {
-    fn from(value: Integer) -> Self {
-        FixedPoint {
+impl TryFrom<Integer> for FixedPoint {
+    type Error = &'static str;
+    fn try_from(value: Integer) -> Result<Self, Self::Error> {
+        Ok(FixedPoint {
             span: value.span,
-            whole: value.value as u64,
+            whole: value.value.try_into().map_err(|e| "u64")?,
             femptos: 0,
-        }
+        })
     }
 }
 
